@@ -158,6 +158,9 @@ class Check(BaseCheck):
                         if depth == 2 and rnd.random() < 0.6:
                             continue
                         self.one_nested(rec, A, B, C, f, g, h, j, mode, depth, soloA)
+                # the interposed evaluation is cut short by one of its own callbacks raising: the outer one still ends as it does alone
+                for mode in ('other-parser', 'new-parser', 'same-parser'):
+                    self.one_nested(rec, A, B, C, f, g, h, j, mode, 1, soloA, abort=rnd.randint(1, 3))
             # several complete evaluations interposed, one after the other, inside ONE outer evaluation
             if nsites >= 2:
                 for mode in ('other-parser', 'new-parser', 'same-parser', 'mixed'):
@@ -165,9 +168,12 @@ class Check(BaseCheck):
                     self.multi_nested(rec, A, B, f, [rnd.choice(fs) for _ in sites], sites, mode, soloA)
             rec.sample({'outer': f, 'callback_sites': nsites, 'inner': g}, k=6)
 
-    def one_nested(self, rec, A, B, C, f, g, h, j, mode, depth, soloA):
+    def one_nested(self, rec, A, B, C, f, g, h, j, mode, depth, soloA, abort=None):
         inner = {}
-        self.current_mode, self.current_depth = mode, depth
+        self.current_mode, self.current_depth = mode + (':inner-aborted' if abort else ''), depth
+
+        def boom():
+            raise RuntimeError('callback of the interposed evaluation fails')
         self.setter_first = (hash((f, j, mode, depth)) & 1) == 1
         rec.cov('setter_order', self.setter_first)
 
@@ -189,6 +195,8 @@ class Check(BaseCheck):
                     inner['h'] = W.run(h)
                     W.count, W.plan = s2
                 plan2 = {1: third}
+            if abort:
+                plan2 = {abort: boom}
             inner['g'] = T.run(g, plan2)
             if T is A:
                 T.count, T.plan = saved
@@ -199,9 +207,11 @@ class Check(BaseCheck):
             return
         rec.nt((f, j, g, mode, depth))
         tagA = 1
-        solo_g = (A if mode == 'same-parser' else B).run(g)
+        solo_g = (A if mode == 'same-parser' else B).run(g, {abort: boom} if abort else None)
         if mode == 'new-parser':
-            solo_g = World(2, self).run(g)
+            solo_g = World(2, self).run(g, {abort: boom} if abort else None)
+        if abort:
+            rec.count('interposed_evaluations_cut_short_by_their_own_callback', solo_g == ('err', '#ERROR!'))
         if got != soloA:
             rec.violation('C03/outer-evaluation-disturbed-by-nested-evaluation:' + mode, outer=f, site=j, inner=g, mode=mode, depth=depth, outer_outcome=got, solo=soloA)
         if inner['g'] != solo_g:
